@@ -245,7 +245,7 @@ func (p *Parser) parse(path string, imported bool) (Program, error) {
 		h := sha256.New()
 		h.Write(source)
 
-		p.prefix = fmt.Sprintf("%x", h.Sum(nil))[0:7] // Only use the 7 first characters (inspired by Git).
+		p.prefix = fmt.Sprintf("_%x", h.Sum(nil))[0:8] // Only use the 7 first characters (inspired by Git). Lead with an underscore because names must not start with a digit.
 	}
 	program, err := p.evaluateProgram()
 
